@@ -478,3 +478,75 @@ func lowerQuiet(src string) (m *ir.Module) {
 }
 
 func init() { commands["c18"] = cmdC18 }
+
+// c18res: the PSV0 resource table against the caller's binding map.  Compute modules with 1–5 buffer resources at random
+// (group, binding); a random dxil.BindingMap moves some of them to other (space, register) pairs — what a D3D12 host does.
+// Every resource the entry point uses must be recorded at the map's target, or at its WGSL numbers when the map has no entry.
+func cmdC18Res(c *ctx) {
+	for i := 0; i < c.n; i++ {
+		n := 1 + c.rng.Intn(5)
+		var b strings.Builder
+		used := map[[2]int]bool{}
+		bm := dxil.BindingMap{}
+		var want []string
+		body := "  var acc = 0u;\n"
+		b.WriteString("struct UB { a: vec4<u32>, }\n")
+		for j := 0; j < n; j++ {
+			var g, bd int
+			for {
+				g, bd = c.rng.Intn(4), c.rng.Intn(8)
+				if !used[[2]int{g, bd}] {
+					used[[2]int{g, bd}] = true
+					break
+				}
+			}
+			switch c.rng.Intn(3) {
+			case 0:
+				fmt.Fprintf(&b, "@group(%d) @binding(%d) var<uniform> r%d: UB;\n", g, bd, j)
+				body += fmt.Sprintf("  acc += r%d.a.x;\n", j)
+			case 1:
+				fmt.Fprintf(&b, "@group(%d) @binding(%d) var<storage, read> r%d: array<u32>;\n", g, bd, j)
+				body += fmt.Sprintf("  acc += r%d[0];\n", j)
+			default:
+				fmt.Fprintf(&b, "@group(%d) @binding(%d) var<storage, read_write> r%d: array<u32>;\n", g, bd, j)
+				body += fmt.Sprintf("  r%d[1] = acc;\n", j)
+			}
+			space, reg := g, bd
+			if c.chance(0.6) {
+				space, reg = c.rng.Intn(3), 20+j+c.rng.Intn(3)*8 // registers 20.. : no two targets collide, none collides with a WGSL number
+				bm[dxil.BindingLocation{Group: uint32(g), Binding: uint32(bd)}] = dxil.BindTarget{Space: uint32(space), Register: uint32(reg)}
+			}
+			want = append(want, fmt.Sprintf("%d:%d", space, reg))
+		}
+		// everything read reaches this buffer, so no resource is dead
+		b.WriteString("@group(3) @binding(15) var<storage, read_write> sink: array<u32>;\n")
+		body += "  sink[0] = acc;\n"
+		want = append(want, "3:15")
+		src := b.String() + "@compute @workgroup_size(1)\nfn main() {\n" + body + "}\n"
+		m := lowerQuiet(src)
+		if m == nil {
+			c.count("res-frontend-rejected")
+			continue
+		}
+		var out []byte
+		res := safely(func() string {
+			var err error
+			out, err = dxil.Compile(m, dxil.Options{ShaderModel: dxil.ShaderModel{Major: 6, Minor: uint32(c.rng.Intn(7))}, BindingMap: bm})
+			if err != nil {
+				return "error " + oneLine(err.Error())
+			}
+			return "ok"
+		})
+		if res != "ok" {
+			c.count("res-" + strings.SplitN(res, " ", 2)[0])
+			continue
+		}
+		sort.Strings(want)
+		c.line("cases.txt", fmt.Sprintf("(psvres %s)", qhex(out)))
+		c.line("impl.txt", "res "+strings.Join(want, " "))
+		c.line("src.txt", q(src)+" "+q(fmt.Sprint(bm)))
+		c.count("res")
+	}
+}
+
+func init() { commands["c18res"] = cmdC18Res }
